@@ -1054,7 +1054,9 @@ def c08(tier):
 
 
 # ------------------------------------------------------------------ C07
-BUDGETS = [0, 1, 2, 3, 5, 10, 100, 1000, 10 ** 4, 10 ** 6, UNLIMITED]
+# "effectively unlimited" budgets: 2^62, and the values a comparison might take for negative or wrap around
+HUGE_BUDGETS = [UNLIMITED, (1 << 63) - 1, 1 << 63, (1 << 64) - 1]
+BUDGETS = [0, 1, 2, 3, 5, 10, 100, 1000, 10 ** 4, 10 ** 6] + HUGE_BUDGETS
 
 
 def c07(tier):
@@ -1081,7 +1083,7 @@ def c07(tier):
     def runs_for(c):
         runs = []
         for b in BUDGETS:
-            if b == UNLIMITED and c["id"] not in hid:
+            if b >= UNLIMITED and c["id"] not in hid:
                 continue                      # an unlimited budget on a divergent program never returns (C05)
             plan = {"mode": "limited", "budget": b}
             if c["id"] not in hid and b >= 100:
@@ -1099,9 +1101,9 @@ def c07(tier):
                                                if refof[c["id"]].get("iters", 0) >= 2})
     rep.coverage["rule"] = ("cases: natively pre-classified halting / divergent programs (TLC re-derives the class "
                             "while validating); each is run with execute_limited at budgets %s on inplace and "
-                            "irint/bcint/jit at levels 0-3 (2^62 only where the program halts); the outcome "
+                            "irint/bcint/jit at levels 0-3 (2^62, 2^63-1, 2^63, 2^64-1 only where the program halts); the outcome "
                             "(finished flag + event log) is validated by TLC (BFTrace): finished => complete "
-                            "canonical log, unfinished => prefix, unfinished at 2^62 => only if the canonical run "
+                            "canonical log, unfinished => prefix, unfinished at 2^62 and above => only if the canonical run "
                             "diverges; the return time is bounded by a watchdog of 10 s + 2 us per budget unit; "
                             "non-trivial = distinct cases with at least two loop iterations"
                             % ", ".join(str(b) for b in BUDGETS))
